@@ -12,7 +12,7 @@ import copy
 
 from .. import bridge, keyworld, seams, world
 from ..ref import enc as renc, keys as rkeys, sigs as rsigs, tkey as rtkey
-from ..ref.wire import WireError, split_packets
+from ..ref.wire import WireError, encode_packet, split_packets
 from .c05 import make_ref_key
 
 ID = 'C18'
@@ -21,7 +21,7 @@ RULE = ('cases are key-management histories of 5-16 steps over 2-3 keys whose cr
         'fingerprint was compared with the reference computation in at least four different forms (private, twin, protected, '
         'unlocked, copy, re-imported, foreign); distinct = distinct (step kinds, creation-time spellings)')
 TIERS = {'quick': {'runs': 3000, 'budget_s': 80}, 'thorough': {'runs': 150000, 'budget_s': 1500}}
-PROBES = ('created_boundary', 'created_non_utc_aware', 'created_naive', 'form_private', 'form_twin', 'form_protected', 'form_unlocked',
+PROBES = ('foreign_mpi_bit_count_rounded_up', 'created_boundary', 'created_non_utc_aware', 'created_naive', 'form_private', 'form_twin', 'form_protected', 'form_unlocked',
           'form_copy', 'form_reimported', 'form_foreign', 'issuer_checked', 'recipient_checked', 'foreign_leading_zero_mpi', 'subkey_created_differs')
 WEIGHTS = {'add_subkey': 3.0, 'protect': 1.5, 'export_import': 2.0, 'copy_key': 1.5, 'derive_pub': 1.0, 'tick': 1.0, 'add_uid': 0.7,
            'recertify': 0.5, 'del_uid': 0.2, 'certify_other': 0.3, 'direct_other': 0.2, 'rebind_subkey': 0.5}
@@ -46,7 +46,7 @@ def generate(rng, tier):
             s['half'] = 'priv'
         steps.append(s)
     foreign = [{'kind': rng.choice(['ed25519', 'p256', 'p384', 'p521', 'secp256k1', 'rsa2048', 'dsa2048', 'cv25519']),
-                'created': rng.choice(TIMES)} for _ in range(rng.choice([0, 1, 2]))]
+                'created': rng.choice(TIMES), 'mpi_slack': rng.random() < 0.5} for _ in range(rng.choice([0, 1, 2]))]
     return {'config': {'keys': keys, 'foreign': foreign, 'start_us': 1_600_000_000_000_000}, 'steps': steps}
 
 
@@ -226,6 +226,19 @@ def execute(case, ctx):
             pub = rkeys.parse_pub(body)
             if any(v.bit_length() % 8 for v in pub.mpis.values()):
                 ctx.probe('foreign_leading_zero_mpi')
+        if f.get('mpi_slack') and alg in (rkeys.ECDSA, rkeys.EDDSA) and not (i % 2):
+            # another encoder may declare an integer with leading zero bits (a bit count rounded up to whole octets); the key is
+            # the same key, and its fingerprint is the one over the packet PGPy itself writes for it
+            off = 6 + 1 + body[6]
+            bits = int.from_bytes(body[off:off + 2], 'big')
+            nb = ((bits + 7) // 8) * 8
+            if nb != bits:
+                slack = body[:off] + nb.to_bytes(2, 'big') + body[off + 2:]
+                out = bytearray()
+                for p in split_packets(tkb):
+                    out += encode_packet(p.tag, slack) if p.tag == 6 else p.raw
+                tkb = bytes(out)
+                ctx.probe('foreign_mpi_bit_count_rounded_up')
         try:
             fk = pgpy.PGPKey.from_blob(tkb)[0]
         except Exception as e:
